@@ -180,6 +180,28 @@ func (f *f16) defBinFor(pb int) []byte {
 	return f.DefBin
 }
 
+// the declared default as an abstract literal: kind (0 none, 1 integer, 3 string, 4 bool), integer value, string bytes
+func (f *f16) litFields() []string {
+	if !f.HasDef {
+		return []string{fi(0), fi(0), fx(nil)}
+	}
+	switch {
+	case f.EnumDef:
+		v := map[string]int{"Color.ZERO": 0, "Color.GREEN": 2, "Color.BLUE": 3}[f.DefIDL]
+		return []string{fi(1), fi(v), fx(nil)}
+	case f.Ty == thrift.BOOL:
+		if f.DefIDL == "true" {
+			return []string{fi(4), fi(1), fx(nil)}
+		}
+		return []string{fi(4), fi(0), fx(nil)}
+	case f.Ty == thrift.STRING:
+		return []string{fi(3), fi(0), fs(strings.Trim(f.DefIDL, "\""))}
+	}
+	var v int64
+	fmt.Sscan(f.DefIDL, &v)
+	return []string{fi(1), fn(v), fx(nil)}
+}
+
 func (s *s16) hasEnum() bool {
 	for _, f := range s.Fields {
 		if f.Ty == tyEnum || f.EnumDef || (f.Sub != nil && f.Sub.hasEnum()) {
@@ -247,6 +269,7 @@ func (g *g16) defsFields(pb int) []string {
 				sub = f.Sub.idx
 			}
 			out = append(out, fi(f.ID), fi(f.Req), fi(int(f.tyFor(pb))), fi(sub), fb(f.HasDef), fx(f.defBinFor(pb)), fs(f.DefJSON), fs(f.Name), fs(f.Alias))
+			out = append(out, f.litFields()...)
 		}
 	}
 	return out
